@@ -16,7 +16,7 @@ CLAIMED = {
         'Tied by config_parse (sanitizer build, forked per file) vs the extracted model on grammar-generated '
         'configurations (must be accepted, trees equal), 45 classes of invalidating edits at random / every applicable position (must be rejected with a file:line: diagnostic), '
         'byte-level mutations (accept/reject and tree must agree; no crash or hang), and the binary on rejected files with a populated maildir (non-zero exit, diagnostic, nothing '
-        'changed, no command run). Defects F-11 (macro composed from two values) and F-23 (a NUL byte ended parsing silently) repaired by fix: commits.',
+        'changed, no command run). Defects F-11 (macro composed from two values) and F-23 (a NUL byte ended parsing silently) repaired by fix: commits. The gate is run for four configurations of every defect class in maildir mode, reading from stdin and with -d from stdin; defect classes include 8 KiB macro names and ${path} in a default-context string directly after an action string spelt the same.',
    note='Partial: nothing is proved about the yacc automaton (error recovery after the first diagnostic, termination on arbitrary bytes) - covered by the differential runs only; the '
         'acceptance theorem leaves out macros, tilde expansion and escaped delimiters (strings without "$" / leading "~" / quote / backslash). The model stops at the first '
         'diagnostic; the number and text of later diagnostics are not modelled.',
@@ -30,7 +30,7 @@ CLAIMED = {
         'that overflow are rejected (C14). The formula before the repair is refuted (F-13). Tied by time_parse through a driver that sets TZ and the clock per request (13 zone '
         'settings with and without DST, instants uniform over 1970-2037 and around DST switches, all layouts and zones) judged by an independent calendar, compared with the '
         'extracted model; and by the binary with a pinned clock on messages aged N-1, N, N+1 seconds for every unit spelling, header and file-mtime fields. '
-        'Defect F-13 repaired by a fix: commit (timegm).',
+        'Defect F-13 repaired by a fix: commit (timegm). Also: local zones whose abbreviations look like header zones, date modified in attachment context, zone name x local zone x verbosity forced in every run.',
    note='strptime / timegm / the zone database are libc: the model parses only the printed forms and counts days itself; lenient strptime inputs are not modelled. '
         'created / access use st_ctime / st_atime, which the harness cannot set: only modified is exercised on the binary.',
    technique='Coq proof (finite calendar sweep lifted, printer/parser round trip, linear arithmetic) + differential runs with pinned clock and zone settings',
@@ -40,7 +40,7 @@ CLAIMED = {
         'target bound branches unreachable, QP inverts every QP rendering and never fails, RFC 2047 total / raw on malformed, '
         'and on every value that is a sequence of plain text and well-formed decodable encoded words the result is the text and the decoded words in order with the white space '
         'between two adjacent encoded words dropped (C16_2047_items). Model tied to the code by a differential run of the '
-        'extracted model against decode.c (exhaustive <=4/<=6 over the 14-symbol alphabet + structured random, plain and ASan/UBSan builds).',
+        'extracted model against decode.c (exhaustive <=4/<=6 over the 14-symbol alphabet + structured random, plain and ASan/UBSan builds). Also: exhaustive Q / B encoded-word payloads, encoded words of every length 0-300, 3-70 KiB inputs followed by small ones in one process (reference decoder only).',
    note='Trusted: Coq kernel, gen_tables.py (Base64 alphabet, Pad64), ExtrOcamlBasic extraction, decode.h driver, C-locale ctype. '
         'Control flow of decode.c is modelled by hand and tied only by correspondence.',
    technique='Coq proof (induction over the input, finite sweeps lifted by forallb_forall) + extracted-model differential correspondence',
@@ -53,7 +53,7 @@ CLAIMED = {
         'UTF-8 decoders on ASCII / 8-bit / multibyte classes). Tied by -d runs on generated populations with ground truth (decoded header values, decoded bodies): an '
         'independent monitor (platform regexec, own width function) judges truth and completeness of every explanation, the extracted model is compared line by line, '
         'and a real run on the same tree must do exactly what the -d lines announce (places, labels, added headers, discards, commands; unlisted messages untouched). '
-        'Defect F-08 (marker far right when the match begins inside the stripped leading blanks) repaired by a fix: commit.',
+        'Defect F-08 (marker far right when the match begins inside the stripped leading blanks) repaired by a fix: commit. Also: multipart/alternative bodies, zone abbreviations before file-date explanations, flags after move, rules shifted down by continued strings (line numbers), bytes that are no complete UTF-8 sequence in front of a match with the oracle regexec under the run\'s locale, a stdin-mode stage comparing -d with the delivery.',
    note='Matches one column wide print ^$ (markers cannot share a column); matches spanning a newline cannot be shown by a one-line quote and are skipped (counted in evidence). '
         'wcwidth is modelled by classes, checked against the platform only through the generated characters.',
    technique='Coq proof (character-segmentation lemma for strnwidth, line-start invariant, induction over the match list) + differential -d / real runs with a ground-truth monitor',
@@ -66,7 +66,7 @@ CLAIMED = {
         'findheader and findboundary refine the list-level models the other checks tie to the code; (4) in the handle model of the attachment table (every growth '
         'invalidates pointers) the re-derivation of msg makes every dereference valid, and without it one is stale (F-09, fixed by 6186a8d). Tied by running the '
         'implementation: message.h call sequences and the mdsort binary (8 configurations: every matcher, rewriting actions, attachment block + exec, -d, stdin mode), both '
-        'built with AddressSanitizer + UBSan, on generated and mutated hostile messages up to 64 KiB with a time limit; a sanitizer report, signal or hang is a violation.',
+        'built with AddressSanitizer + UBSan, on generated and mutated hostile messages up to 64 KiB with a time limit; a sanitizer report, signal or hang is a violation. Also: a fixed corpus of odd header values and of letters whose other-case form has another UTF-8 length (l / u flags in C.UTF-8), configurations whose interpolation fails while the run goes on, a valgrind memcheck stage on truncated messages.',
    note='Memory safety of the compiled binary is NOT proved: libc internals, the allocator, pointer provenance and signed overflow are outside the model; the sanitizer runs are '
         'tests over sampled inputs. unfoldheader / parseboundary / skipseparator refinement is tested (scan command of the extracted model), not proved.',
    technique='Coq proof (fuel adequacy by measure, index-level bounds by induction, refinement to the list-level models) + sanitizer-instrumented differential runs (test)',
@@ -77,7 +77,7 @@ CLAIMED = {
         'untouched original fields in order (names, values incl. folding), each set name exactly once with the last value, and the original body; '
         'the written file re-reads as exactly that. Complementary classes (NUL, unterminated last header, leading empty body lines, CRLF separator) '
         'are refuted by witness lemmas and pinned as known findings F-10a-d. Model tied by differential runs (message.h driver + mdsort binary) '
-        'and an independent RFC 5322 line reader as monitor.',
+        'and an independent RFC 5322 line reader as monitor. Also: copies across file systems, two label actions over several X-Label fields, header names that agree in 31 characters, 25 messages of differing layouts per run.',
    note='Trusted: Coq kernel, extraction, message.h driver, python monitor, glibc qsort being a stable merge sort (modelled as stable insertion sort; '
         'the binary-search theorem itself holds for any key-sorted permutation). Control flow of message.c modelled by hand.',
    technique='Coq proof (invariant over the sequence of set_header operations, sorted-permutation uniqueness, binary-search correctness) + differential correspondence',
@@ -86,7 +86,7 @@ CLAIMED = {
    text='Coq theorems: a header condition on a parsed well-formed message is true iff the pattern (any regexec function) matches the unfolded, '
         'RFC 2047-decoded value of some occurrence of some named field (names case-insensitive); binary search + run extension returns exactly '
         'the run of equal names on any key-sorted table and never indexes out of bounds; unfolding yields one line. Tied by differential runs of '
-        'message_get_header and of the binary with header rules whose regex outcome is computed by the platform regexec.',
+        'message_get_header and of the binary with header rules whose regex outcome is computed by the platform regexec. Also: decoy conditions with the opposite i flag, continuation lines that carry only a tab, lists naming a field and an extension / prefix of it, header conditions after body / attachment / date conditions on repeated Content-Type / Content-Transfer-Encoding / Date fields.',
    note='Trusted: as C08/C16 plus platform regcomp/regexec used as oracle on both sides; RFC 2047 full factorisation not proved (see C16).',
    technique='Coq proof (sorted-array binary search, stability of the sort, iff over names/fields) + differential correspondence with platform regexec',
    ref='DESIGN 6 C10'),
@@ -95,7 +95,7 @@ CLAIMED = {
         'after the last ":2," sorted and de-duplicated; invalid suffix = error; S set/cleared exactly on new->cur / cur->new with every other flag kept; '
         '"flags" adds exactly its letters; candidate names for different counter values differ (decimal rendering injective, counter wrap mod 2^32 included) and the '
         'O_EXCL retry loop returns within |E|+1 attempts a name not in any set E of existing names. Tied by runs of the binary under the interposer with '
-        'clock/pid/host/random pinned (one message per run, 0-5 pre-existing candidate names, empty and non-empty), exact name compared with the model.',
+        'clock/pid/host/random pinned (one message per run, 0-5 pre-existing candidate names, empty and non-empty), exact name compared with the model. Also: rename failing with EXDEV, 128-300 colliding names, three messages under an invalid flags string, a destination whose new/ vanishes during the run, source maildirs named like back-references, generated names at NAME_MAX, flag / flags over maildirs nested in one another.',
    note='Trusted: as above plus shim/libvfio.so (pinning, tracing). The mtime and never-replace clauses at system-call level are also covered by C01/C02. '
         'maildir/subdir inference through pathslice: primitive proved under C18, the composed C09_destination statement is covered by correspondence only. '
         'Genuine defect F-05 (flags parsed from the whole path) repaired by fix: commit d135c7f.',
@@ -110,7 +110,7 @@ CLAIMED = {
         '"somebody else removed the message" (checked by the kernel), and a global invariant says the shared name disappears exactly once, by exactly one party. The exhaustive '
         'product explorations for pairs and triples are kept. Tied by running mdsort under the interposer with a second party (another mdsort: '
         'move / cross-device move / flag / label / discard, or mv / rm) run to completion before every call k of the first, for all 42 scenario pairs: the final tree is judged '
-        'by the property itself and, when the second party met the original message, the outcome must be one the model can reach.',
+        'by the property itself and, when the second party met the original message, the outcome must be one the model can reach. Also: name collisions with a script and with a second mdsort seeing the same second / pid / host / counter, two-action parties, a look-alike bystander file name, a two-block run whose first block crosses file systems into the maildir the second flags in.',
    note='Partial because of known finding F-16: a second mdsort that WALKS the maildir while the first one\'s uncommitted rewritten copy is '
         'visible there (copies are created in new/ or cur/, not tmp/) selects it as a message - the message is duplicated; outside the single-message model, exhibited on the '
         'binary and listed in known-findings.txt. Quick tier: one preemption point per binary run; thorough tier adds sampled three-party schedules with two preemption points. Thread-level simultaneity inside the kernel is not exercised.',
@@ -120,7 +120,7 @@ CLAIMED = {
    text='Coq theorems: pathjoin, bounded copy, pathslice (single-pass copy loop with its bufsiz accounting) and the generated name return either an error or '
         'exactly the intended string (pathslice = the selected components of the path cut before every "/"), never a prefix. Tied by exhaustive differential '
         'runs of pathslice/pathjoin (all component shapes, ranges, buffer sizes; plain + ASan with exact-size buffers) and by binary runs with maildir path, '
-        'interpolated destination, message path, host name, HOME, TMPDIR at every length in a window around PATH_MAX/NAME_MAX with decoys at truncations.',
+        'interpolated destination, message path, host name, HOME, TMPDIR at every length in a window around PATH_MAX/NAME_MAX with decoys at truncations. Also: interpolated isdirectory paths, ~ expansion at every length around PATH_MAX, counter growth at NAME_MAX, TMPDIR as the place of the body temp file and of the spool (decoy directory at the truncation: F-24), rewritten message path too long, move merged with flag around NAME_MAX, the default configuration path, three messages under one over-long literal destination.',
    note='Compositions of the primitives are modelled as path expressions (NamesDefs.pexp): for EVERY nesting of bounded copy and pathjoin the result is exactly the '
         'intended string and exists iff every buffer on the way fits (C18_composed_exact / _defined / _never_truncates), with the message path, the delivered path and the '
         'temporary-file template as instances whose verdict the window runs compare with the binary. That each call site of the code is such a nesting (and not a '
@@ -135,7 +135,7 @@ CLAIMED = {
         'content; two faults never lose the message; lifted to a whole run: the messages are handled one after the other with running call numbers and whichever call of '
         'whichever message fails, every message satisfies these clauses (C01_whole_run). Proved by vm_compute sweeps over the finite scenario space lifted to all indices (run_ext). The clause '
         '"every failure is reported" is restricted to reported sites; tolerated sites are refuted by witness and pinned as F-15. Tied by enumerating every call '
-        'index x failure of interposed runs of the binary, normalising the action phase to the model vocabulary (model must issue the same calls) and judging the final tree.',
+        'index x failure of interposed runs of the binary, normalising the action phase to the model vocabulary (model must issue the same calls) and judging the final tree. The corpus also holds rules kept by pass whose following rule does I/O in its condition (stat, fork/waitpid), exec scenarios, two rewrites, a first message on another file system followed by plain renames, and every scenario with a command once with SIGCHLD inherited as ignored.',
    note='Trusted: shim/libvfio.so (fault semantics: failing call has no effect; close/fclose release; failing stdio writes leave partial data), trace normaliser, '
         'the abstraction of all fprintf calls of message_write into one Write op and of EEXIST retries into one Creat. Several messages are lifted by theorem (sequential jobs over disjoint names); several actions on one message by the per-action versions only. Defects F-01, F-04 repaired by fix: commits.',
    technique='Coq proof (finite sweeps over interaction trees lifted by an oracle-extensionality lemma) + exhaustive single-fault enumeration against the binary',
@@ -143,7 +143,7 @@ CLAIMED = {
  'C02': dict(
    text='Coq theorem over the same models: for the fault-free run and every single-fault run, at EVERY kill point and in EVERY power-failure state (any persisted '
         'prefix of directory operations, file data only as fsynced) some name holds a complete copy. Tied by SIGKILL before every call of interposed runs (tree judged) '
-        'and by pushing the implementation\'s own normalised traces through the model\'s crash semantics (IODefs.crash_violation).',
+        'and by pushing the implementation\'s own normalised traces through the model\'s crash semantics (IODefs.crash_violation). Scenarios with commands are judged on surviving trees only.',
    note='Storage model as in the property text; directory fsync outside it. Trusted as C01.',
    technique='Coq proof (finite sweeps of crash states lifted to all indices) + kill-point enumeration + crash analysis of implementation traces',
    ref='DESIGN 6 C02'),
@@ -151,7 +151,7 @@ CLAIMED = {
    text='Coq theorems about the model of main(): exit 0 iff configuration ok and no message/maildir error (and no reject on stdin); any error or configuration error '
         'gives non-zero (75 on stdin); stdin status in {0,1,75} with 1 iff reject and no error; every message of every maildir is examined whatever happened before; '
         'per-action status soundness from C01. The stdin clause "0 only if stored or discarded" is refuted (no rule matches: F-12, known finding). Tied by populations '
-        'with individually defective messages (8 defect kinds + attachment blocks + unusable maildirs), stdin outcome cases and every single fault of stdin deliveries.',
+        'with individually defective messages (8 defect kinds + attachment blocks + unusable maildirs), stdin outcome cases and every single fault of stdin deliveries. Also: unusable maildirs (missing / a file / new or cur missing), non-executable commands, failing interpolation inside command / isdirectory conditions, defective messages after healthy ones of the same kind (Date without zone after zone abbreviations), several location actions in stdin mode (F-25 listed).',
    note='The model of main() is a thin fold over observed per-message outcomes; what makes a message an error is tied by the population runs, not proved. '
         'F-18 (errc in maildir_set_path aborts the run) is not exercised by this check.',
    technique='Coq proof (fold invariants) + differential population runs + fault enumeration in stdin mode',
@@ -160,7 +160,7 @@ CLAIMED = {
    text='The Coq part is structural: in the model of main() the dry-run pipeline is the real pipeline without its last (only mutating) stage, and -n examines no '
         'message. The deciding evidence is the tie: interposer traces and full sandbox snapshots (names, sizes, hashes, mtimes incl. TMPDIR) of -d and -n runs over '
         'generated rule trees and special configurations (failing destinations, invalid back-references, command conditions, exec stdin/body, attachment blocks), in '
-        'maildir and stdin mode, also with an unwritable stdout and on a file system that reports no file types: no mutating call, no exec-action fork, nothing changed.',
+        'maildir and stdin mode, also with an unwritable stdout and on a file system that reports no file types: no mutating call, no exec-action fork, nothing changed. Also: -n / -d / -v combined in any spelling, broken stdin, TZ of 255-300 characters and HOME / TMPDIR of PATH_MAX characters, configurations that meet a maildir twice.',
    note='This property is a statement about which calls are issued; the theorem is only as strong as the model of main() (by construction), so the claim rests mostly '
         'on the trace tie. Trusted: shim, snapshotting.',
    technique='Coq proof (structural) + interposed trace and snapshot comparison over generated configurations',
@@ -174,7 +174,7 @@ CLAIMED = {
         'wins, a nested block entered only if its condition holds, pass keeps the actions and continues, break abandons the block); for nested plain rules run_rules = spec_run '
         'including the location entries. '
         'Known findings with witness lemmas: T1/T2 (pinned), F-21 location merge; F-02 (a failed negation cleared the whole list) repaired by a fix: commit. Tied by comparing the action list mdsort -d prints, in order, and the '
-        'final tree of a real run with the extracted evaluator on all 8 truth assignments per generated tree, and with the documented semantics.',
+        'final tree of a real run with the extracted evaluator on all 8 truth assignments per generated tree, and with the documented semantics. Further stages: non-message files with and without d_type, formulas over isdirectory / command with back-references, blocks naming several (nested) maildirs, a command that changes what a later message\'s condition tests, same file names in different directories under file-date conditions, macro names that are prefixes of one another with -D.',
    note='Not proved: action lists with pass / break before their last action, and the final location when several move / flag actions are pending (refuted, F-21); both are '
         'covered by the correspondence only. The parser shape (left-nested OR chain, MATCH sentinel, AND chain of actions, and/or equal precedence left-associative, ! tighter) is modelled by hand '
         '(compile) and tied only by correspondence. EXPR_ERROR propagation, attachment conditions/blocks and plain matchers are outside this check (C11/C13/C04).',
@@ -190,7 +190,7 @@ CLAIMED = {
         'attachment condition is exists-with-first-error-or-match-wins over the part list, the attachment block is for-each and an error in any part is an error. '
         'Tied by (a) message_get_body / message_get_attachments vs the extracted model on generated MIME texts incl. malformed structure, (b) generated well-formed '
         'trees with ground truth: number and pre-order of parts, every part\'s decoded body, the depth limit, the text/plain preference, (c) the binary with body / '
-        'attachment body / attachment header rules, attachment blocks and exec stdin body, judged by platform regexec over the decoded content and by a recording helper.',
+        'attachment body / attachment header rules, attachment blocks and exec stdin body, judged by platform regexec over the decoded content and by a recording helper. Also: quoted parameters after the boundary, boundaries of 69-100 characters, exec stdin body after a rewrite of the same rule, a header with a malformed encoded word decoded before bodies and parts.',
    note='Outside well-formed trees (missing terminator, colliding boundaries, header defects of F-10) nothing is proved; those inputs are covered by the correspondence and the '
         'ground-truth monitor. Charset conversion does not exist in mdsort and is not part of the property.',
    technique='Coq proof (induction over MIME trees composing the header round trip with the boundary-scanning theorem; case analysis over body selection and decoding) + differential runs against generated MIME trees with ground truth',
@@ -200,7 +200,7 @@ CLAIMED = {
         'every template; it equals "tokenize the template with a function that sees neither message nor macro values, substitute each token once, concatenate" - so '
         'substituted text is never scanned; back-references reach only the pattern entries after the nearest preceding rule sentinel; a missing pattern or group is an '
         'error for the whole string. Tied by binary runs (recording helper for exec/command argv, label / add-header values) whose captures come from the platform '
-        'regexec on the model\'s decoded values, and an independent python reading of the template syntax as monitor. F-07 (label re-scanned) repaired by a fix: commit.',
+        'regexec on the model\'s decoded values, and an independent python reading of the template syntax as monitor. F-07 (label re-scanned) repaired by a fix: commit. Also: non-pattern and interpolated isdirectory / command conditions between the patterns, captures side by side with l / u, 12-group patterns with two-digit references, captures used after their header was rewritten (MALLOC_PERTURB_), sequences of messages in which an earlier template fails part-way.',
    note='Parse-time macro expansion (expandmacros) is modelled and tied by the same runs but has no theorem yet; F-11 (NULL macro list for command/isdirectory) is '
         'not exercised. "error leaves the message untouched" is observed through the runs (exit status, no action), not proved.',
    technique='Coq proof (fuel adequacy by scanner progress lemmas, factorisation through a context-free tokenizer) + differential runs with platform regexec',
@@ -214,7 +214,7 @@ CLAIMED = {
         'with targets, exit status / signal, over exec options x positions among other actions x body encodings x maildir/stdin mode, command conditions, '
         'capture arguments (present/empty/absent groups) and attachment blocks whose expected stdin comes from the extracted model; the helper also records environ and cwd, '
         'compared with what mdsort was started with (TZ unset / empty / set / too long for the snapshot buffer) and with the model. '
-        'Defects F-19 (temp file inherited), F-06 (undecoded body after rewrite), F-09 (use-after-free on nested multiparts) repaired by fix: commits.',
+        'Defects F-19 (temp file inherited), F-06 (undecoded body after rewrite), F-09 (use-after-free on nested multiparts) repaired by fix: commits. Also: several exec actions per rule, attachment blocks selecting some parts, command conditions per attachment with identical arguments, ${path} over several messages and maildirs.',
    note='The descriptor model states the discipline (every open sets the flag); that each call site follows it is tied by the helper observing the child\'s descriptors. '
         'fork/dup2/execvp themselves are not modelled.',
    technique='Coq proof (case analysis on wait statuses, invariant over descriptor operations) + recording-helper differential runs',
